@@ -686,7 +686,7 @@ pub fn history(cfg: &Cfg, rep: &mut Report, h: u64, steps: usize, mode: Mode) {
 }
 
 pub fn run(cfg: &Cfg, rep: &mut Report) {
-    rep.rule = "(a) exhaustive sweep (split over shards) of transfer and transfer_from under all 2^7 combinations of {paused, from frozen, to frozen, amount > free, id(from) fails, id(to) fails, compliance denies} and mint under 2^2, each in 3 variants (partial amount, self-transfer, whole balance) on a fresh token with sufficient balance and allowance; (a') the library's own compliance dispatcher with 3 scripted logging modules: every entry point x every subset of registered modules {all, two, none} x every subset of denying modules; (b) seeded histories of mint/transfer/transfer_from/approve/forced_transfer/burn/recover_balance/freeze/unfreeze/set_address_frozen/pause/unpause with gate toggles in between, amounts around balance, free and frozen. Distinct case = (entry point, 7-bit gate vector, outcome) for (a) and (op, gate vector or freeze class, outcome) for (b).".into();
+    rep.rule = "(a) exhaustive sweep (split over shards) of transfer and transfer_from under all 2^7 combinations of {paused, from frozen, to frozen, amount > free, id(from) fails, id(to) fails, compliance denies} and mint under 2^2, each in 3 variants (partial amount, self-transfer, whole balance) on a fresh token with sufficient balance and allowance; (a') the library's own compliance dispatcher with 3 scripted logging modules: every entry point x every subset of registered modules {all, two, none} x every subset of denying modules; (b) seeded histories of mint/transfer/transfer_from/approve/forced_transfer/burn/recover_balance/freeze/unfreeze/set_address_frozen/pause/unpause with gate toggles in between, amounts around balance, free and frozen; (c) the token wired to the library's real identity verifier over real registries, identity contracts and claim issuers (C15's history engine): after every registry / key / claim / time step, mints to and transfers between 4 accounts must pass exactly when the iff-oracle of C15 says the parties are verified. Distinct case = (entry point, 7-bit gate vector, outcome) for (a) and (op, gate vector or freeze class, outcome) for (b).".into();
     gate_sweep(cfg, rep);
     real_dispatcher(cfg, rep);
     let nh = cfg.pick(60u64, 1200);
@@ -697,6 +697,18 @@ pub fn run(cfg: &Cfg, rep: &mut Report) {
             history(cfg, rep, h, steps, Mode::Gates);
         }
     }
+    // (c) the identity gate end to end: the token wired to the library's real identity verifier
+    // over the real registries, identities and issuers (C15's engine; its own monitors muted)
+    rep.mute_prefix = Some("C15/".into());
+    for k in 0..cfg.pick(6u64, 40) {
+        let h = 500_000 + k;
+        if cfg.runs(h) {
+            crate::props::c15::history(cfg, rep, h, cfg.pick(100, 200), true);
+        }
+    }
+    rep.mute_prefix = None;
     rep.floor_on("transfer_from_ok", 20, &["transfer_from:ok"]);
     rep.floor_on("recover_ok", 5, &["recover_balance:ok"]);
+    rep.floor_on("real_identity_transfers_ok", 20, &["e2e_transfer_ok"]);
+    rep.floor_on("real_identity_transfers_refused", 20, &["e2e_transfer_refused"]);
 }
